@@ -229,6 +229,13 @@ func c09Run(c *Ctx, cs c09Case, keepCT map[string][]byte) {
 	if res.err != nil {
 		c09ErrText(r, cs, res.err, secrets, cfg, fail)
 	}
+	if cs.Variant == "remote-name-beyond-255" {
+		// a remote server name that does not fit its one-byte length: what
+		// the client then sends or answers is not the property's business,
+		// that no secret shows up in bytes or error text (checked above) is
+		r.Count("remote_name_beyond_255_logins", 1)
+		return
+	}
 	if cs.Variant == "too-long" {
 		if res.err == nil {
 			fail("too-long-password-accepted", "a password beyond the key capacity cannot be encrypted, Login returned nil")
@@ -520,6 +527,15 @@ func runC09(c *Ctx) {
 			cs3.Remotes, cs3.RemPwHex = nil, nil
 			cases = append(cases, cs3)
 		}
+	}
+	// remote server names at and beyond what their one-byte length can carry
+	for _, l := range []int{255, 256, 300} {
+		v := "ok"
+		if l > 255 {
+			v = "remote-name-beyond-255"
+		}
+		cases = append(cases, c09Case{PwHex: hex.EncodeToString([]byte("acc0unt-Secret")), PwClass: "long-remote-server-name", User: "sa", NonceLen: 16, KeyBits: 1024, Variant: v, CutClass: "one-packet",
+			Remotes: []string{strings.Repeat("N", l), "REM1"}, RemPwHex: []string{hex.EncodeToString([]byte("remote-secret-A")), hex.EncodeToString([]byte("remote-secret-B"))}})
 	}
 	// key capacity and capacity+1
 	for _, bits := range keySizes {
